@@ -15,9 +15,11 @@ Conventions of the mirror
 * `Vec<BranchOp>` + a position index is a zipper (`done`, `todo`): `ops[pos]` is the head of `todo`.
 * `none` = the Rust code panics (debug build: arithmetic underflow, index out of bounds, `unwrap` on `None`, `assert!`,
   `u16::try_from(..).unwrap()`, the explicit `panic!`s) — or a loop mirror ran out of fuel (proved impossible), or the
-  builder was handed something it silently mis-encodes: an over-full node (separators and node pointers overlap), a
-  number of pushes different from `n`, a `push` / `push_chunk` of a prefix-compressed separator whose first `prefix_len`
-  bits are not the node's prefix, a `push_chunk` of a separator that is not prefix-compressed in the base.
+  builder was handed something it silently mis-encodes: a number of pushes different from `n`, a `push` / `push_chunk` of
+  a prefix-compressed separator whose first `prefix_len` bits are not the node's prefix, a `push_chunk` of a separator that
+  is not prefix-compressed in the base.  An OVER-FULL node (`Node.body > BODY`: separators and node pointers overlap in
+  the page) is NOT `none`: the builder does not notice, and neither does the mirror — `T1_branch_sizes_bounded` is the
+  statement that it does not happen.
 * `find_key_pos` is a binary search; on ascending distinct keys its answer is determined (`(true, i)` for the match,
   `(false, partition point)` otherwise) and that is what `findKeyPos` computes (after the two prefix shortcuts).
 -/
@@ -45,6 +47,10 @@ theorem BULK_TARGET_eq : BULK_TARGET = 3064 := by decide
 structure KF where
   pl : Nat → Nat → Nat
   sl : Nat → Nat
+  /-- `false`: `push_chunk` as the code has it (a separator of the base that is shorter than the base's prefix — stored with
+  0 bits — is stored with `0 + (old prefix_len - new prefix_len)` bits under a shorter prefix, although the gauge counted
+  `separator_len - new prefix_len`: finding F20); `true`: it is stored with the length the gauge counted -/
+  canon : Bool := false
 
 /-- the first `n` bits of a 256-bit key -/
 def top (k n : Nat) : Nat := k / 2 ^ (256 - n)
@@ -544,12 +550,14 @@ def Bld.push (b : Bld) (key len pn : Nat) : Option Bld :=
   else some { b with items := b.items ++ [⟨key, pn, len⟩] }
 
 /-- the items `from .. to` of the base as `push_chunk` stores them in the new node -/
-def chunkItems (b : Bld) (base : Node) (first : Nat) : List Item → Option (List Item)
+def chunkItems (kf : KF) (b : Bld) (base : Node) (first : Nat) : List Item → Option (List Item)
   | [] => some []
   | it :: r =>
     if top it.key b.pl == top first b.pl then
-      (chunkItems b base first r).map fun r' =>
-        ⟨it.key, it.pn, if b.pl < base.pl then it.slen + (base.pl - b.pl) else it.slen - (b.pl - base.pl)⟩ :: r'
+      (chunkItems kf b base first r).map fun r' =>
+        ⟨it.key, it.pn,
+          if kf.canon then kf.sl it.key - b.pl
+          else if b.pl < base.pl then it.slen + (base.pl - b.pl) else it.slen - (b.pl - base.pl)⟩ :: r'
     else none
 
 /-- `set_node_pointer(self.index + i, new_pn)` for every `(i, new_pn)` of `updated` -/
@@ -564,7 +572,7 @@ def applyUpdated (n index : Nat) : List (Nat × Nat) → List Item → Option (L
          | none => items)                                   -- the slot of an item pushed later: overwritten by its push
 
 /-- `push_chunk(base, from, to, updated)` -/
-def Bld.pushChunk (b : Bld) (base : Node) (f t : Nat) (updated : List (Nat × Nat)) : Option Bld :=
+def Bld.pushChunk (kf : KF) (b : Bld) (base : Node) (f t : Nat) (updated : List (Nat × Nat)) : Option Bld :=
   if t < f then none                                        -- `to - from`
   else if ¬ b.index + (t - f) ≤ b.pc then none               -- `assert!`
   else if base.n < t ∨ base.pc < t then none                 -- `cells()[from..to]` / an uncompressed separator of the base
@@ -575,16 +583,16 @@ def Bld.pushChunk (b : Bld) (base : Node) (f t : Nat) (updated : List (Nat × Na
     | none => none
     | some fk =>
       let first := match b.items.head? with | some x => x.key | none => fk
-      match chunkItems b base first (slice base.items f t) with
+      match chunkItems kf b base first (slice base.items f t) with
       | none => none
       | some its =>
         let items := b.items ++ its
         if 65535 < slenSum items then none                  -- `u16::try_from(cell_pointer).unwrap()`
         else (applyUpdated b.n b.index updated items).map fun items' => { b with items := items' }
 
-/-- `finish()`; `none`: fewer / more pushes than `n`, or separators and node pointers overlap -/
+/-- `finish()`; `none`: fewer / more pushes than `n` -/
 def Bld.finish (b : Bld) : Option Node :=
-  if b.items.length = b.n ∧ bodySize b.pl (slenSum b.items) b.n ≤ BODY then some ⟨b.pl, b.pc, b.items⟩ else none
+  if b.items.length = b.n then some ⟨b.pl, b.pc, b.items⟩ else none
 
 /-- the `for pos in compressed_end..base_range.end { builder.push(base.key_value(pos)) }` loop of `apply_chunk` -/
 def pushRange (kf : KF) (base : Base) : (cnt pos : Nat) → Bld → Option Bld
@@ -602,7 +610,7 @@ def applyChunk (kf : KF) (base : Base) (g : Gauge) (b : Bld) (s e : Nat) (acc : 
   let nLeft := g.pcItems - b.index
   let cEnd := min (s + nLeft) e
   let updated := acc.filterMap fun op => match op with | .upd pos pn => some (pos - s, pn) | _ => none
-  match b.pushChunk base.node s cEnd updated with
+  match b.pushChunk kf base.node s cEnd updated with
   | none => none
   | some b1 => pushRange kf base (e - cEnd) cEnd b1
 
